@@ -79,8 +79,11 @@ public:
   Processor(std::istream &in, std::ostream &out, size_t maxCycles=0) :
     pc(0), areg(0), breg(0), oreg(0),
     io(in, out), truncateInputs(true), out(out),
-    running(true), tracing(false), lastPC(0), cycles(0),
-    maxCycles(maxCycles) {}
+    running(true), tracing(false), exitCode(0), lastPC(0), cycles(0),
+    maxCycles(maxCycles) {
+    // Memory not covered by the loaded image reads as zero.
+    memory.fill(0);
+  }
 
   void setTracing(bool value) { tracing = value; }
   void setTruncateInputs(bool value) { truncateInputs = value; }
